@@ -1,4 +1,5 @@
 import DispensoVerif.Model.Chunk
+import DispensoVerif.Model.Bits
 
 /-! Handlers of the dvdriver line protocol. Core Lean only. -/
 namespace Driver
@@ -36,8 +37,29 @@ def chunkH (args : List String) : String :=
     | _, _ => "bad-op"
   | _ => "bad-op"
 
+def nats (l : List String) : Option (List Nat) := l.mapM String.toNat?
+
+/-- C44 bit math -/
+def bitsH (args : List String) : String :=
+  match args with
+  | op :: rest =>
+    match op, nats rest with
+    | "np2", some [v] => toString (Bits.nextPow2 (BitVec.ofNat 64 v)).toNat
+    | "l2c64", some [v] => toString (Bits.log2const64 (BitVec.ofNat 64 v)).toNat
+    | "l2c32", some [v] => toString (Bits.log2const32 (BitVec.ofNat 32 v)).toNat
+    | "log2", some [v] => if v = 0 then "reject" else toString (Bits.log2Spec v)
+    | "ctz", some [v] => if v = 0 then "reject" else toString (Bits.ctzSpec 64 v)
+    | "pop", some [v] => toString (Bits.popcountSpec 64 v)
+    | "a2c", some [v] => toString (Bits.alignToCacheLine (BitVec.ofNat 64 v)).toNat
+    | "amal", some [b, a] =>
+      let r := Bits.alignedMallocAddr (BitVec.ofNat 64 b) (BitVec.ofNat 64 a)
+      s!"{r.1.toNat} {r.2.toNat}"
+    | _, _ => "bad-op"
+  | _ => "bad-op"
+
 def dispatch (st : St) : List String → St × String
   | "chunk" :: rest => (st, chunkH rest)
+  | "bits" :: rest => (st, bitsH rest)
   | _ => (st, "bad-op")
 
 end Driver
